@@ -19,7 +19,7 @@ LEVEL_NOTE = ("Trusted: Lean kernel (+ standard axioms); kernel translator (K10)
 TECHNIQUE = "Lean 4 refinement proof (induction over batches) to a dictionary of totals; correspondence incl. metamorphic re-splitting"
 DESIGN_REF = "7"
 LEAN_MODULES = ["NpsVerif.Props.C12"]
-KERNELS = ("ht_hash",)
+KERNELS = ("ht_hash", "ht_mod")
 RULE = ("cases = key set x key dtype x modulus (as C11) x initial value (default 0 / 0 / non-zero scalar / float scalar / per-key array) x "
         "1..5 sample batches (empty, no key, only keys, heavy repetition, few hits with a repeated key on tables of up to 48 keys, non-keys colliding with a non-empty bucket / falling into an "
         "empty bucket / huge); each batch list is also run re-split and permuted on the implementation; distinct = distinct (keys, mod, "
